@@ -842,6 +842,29 @@ def check_jacobian(model, seed=0, sparse=False, backend="default", n_states=2):
                 bad = np.unravel_index(int(np.argmax(np.abs(Js - FDh))), FDh.shape)
                 fails.append(dict(clause="jacobian (delayed model): sum of history matrices == d f / d y(t - tau) (same history vector for every delay)",
                                   entry=[int(b) for b in bad], observed=float(Js[bad]), expected=float(FDh[bad])))
+            # the Jacobian evaluated with a REAL history object (DDEHistory holding a non-constant recorded trajectory) equals the one
+            # evaluated with a plain callable that returns the same values as fresh arrays (several delays are looked up before use)
+            if not fails and "hist" in jnames and len(set(delays_of(model))) > 1:
+                try:
+                    from pyrates.backend.base.base_backend import DDEHistory
+                    D = DDEHistory(np.array(hvec, dtype=float), t0=-2.0)
+                    for kk in range(1, 41):
+                        tk = -2.0 + 0.05 * kk
+                        D.update(tk, np.array([hvec[i] + 0.4 * np.sin(1.3 * tk + i) for i in range(n)], dtype=float))
+                    ja = list(jargs)
+                    ja[list(jnames).index("hist")] = D
+                    jb = list(jargs)
+                    jb[list(jnames).index("hist")] = lambda tq: np.array(D(tq), dtype=float, copy=True)
+                    ra = jf(t0, y.copy(), *ja[2:])
+                    rb = jf(t0, y.copy(), *jb[2:])
+                    dense = lambda m_: np.asarray(m_.todense() if hasattr(m_, "todense") else m_, dtype=float)
+                    pa = [dense(ra[0])] + [dense(m_) for m_ in ra[1]]
+                    pb = [dense(rb[0])] + [dense(m_) for m_ in rb[1]]
+                    if len(pa) != len(pb) or any(not np.allclose(a_, b_, rtol=1e-9, atol=1e-12) for a_, b_ in zip(pa, pb)):
+                        fails.append(dict(clause="jacobian (delayed model): the same matrices whether the history is a DDEHistory object or a callable "
+                                                 "returning the same values", observed=[m_.tolist() for m_ in pa][:3], expected=[m_.tolist() for m_ in pb][:3]))
+                except Exception as exn:
+                    fails.append(dict(clause="jacobian function is callable with a DDEHistory object as history", observed=f"{type(exn).__name__}: {exn}"))
             # one matrix per DISTINCT delay: perturb the history only at t0 - tau_k; the returned matrices must be exactly these
             # (compared as a multiset: no assumption on their order)
             delays = sorted(set(delays_of(model)))
